@@ -37,7 +37,7 @@ def judge(ctx, tag, s, passed_vars, pattern, n, edges, want, be, desc):
     st = msolve.state()
     f0 = st.fired
     try:
-        res = s.solve(backend=be)
+        res = s.solve(backend=D.backend_for(ctx, s, be))
     except OverflowError:
         ctx.inconc("stand-in overflow", ctx.current_case)
         return
